@@ -32,6 +32,12 @@ fn mk_c05() -> Vec<Box<dyn Monitor>> {
 fn mk_c01() -> Vec<Box<dyn Monitor>> {
     vec![Box::new(mon::c01::C01 { every: 1 })]
 }
+fn mk_c07() -> Vec<Box<dyn Monitor>> {
+    vec![Box::new(mon::c07::C07::new())]
+}
+fn mk_c08() -> Vec<Box<dyn Monitor>> {
+    vec![Box::new(mon::c08::C08)]
+}
 fn mk_c06() -> Vec<Box<dyn Monitor>> {
     vec![Box::new(mon::swaps::C06)]
 }
@@ -69,6 +75,26 @@ fn specs() -> Vec<CheckSpec> {
         mk: mk_c06,
         level: "exploration",
         rule: "HIST every landed swap's per-step trace (hook H1) must chain from the pool's pre-state to its post-state and is re-computed step by step with big integers (curve amounts, fee, protocol share, LP growth increment), then reconciled with account deltas, vault balances and the Traded event; protocol-fee collections must pay exactly the owed amounts and zero them; a case is one (instruction, direction, mode, #steps, #crossed ticks, zero-liquidity step, ended at limit, explicit limit, spacing, fee class, protocol fee on) tuple",
+        quick_runs: 400,
+        thorough_secs: 600,
+        assumptions: COMMON_ASSUMPTIONS,
+    },
+    CheckSpec {
+        id: "C07",
+        profile: Profile::Core,
+        mk: mk_c07,
+        level: "exploration",
+        rule: "HIST an exact rational shadow ledger distributes the LP fee of every traced swap step with liquidity over the positions in range at that step (model tick moving with the crossings), pro rata; whenever a position's fee state changes the credited delta c is compared with the exact entitlement e since the previous credit: c <= floor(e) always, and c >= floor(e) - (steps*L/2^64 + 2) unless the credit would reach 2^64 (documented overflow carve-out); accumulators are fast-forwarded to just below 2^128 in a quarter of the runs; a case is one (instruction, token, earned-anything, #steps, liquidity magnitude) tuple at a credit event",
+        quick_runs: 400,
+        thorough_secs: 600,
+        assumptions: COMMON_ASSUMPTIONS,
+    },
+    CheckSpec {
+        id: "C08",
+        profile: Profile::Core,
+        mk: mk_c08,
+        level: "exploration",
+        rule: "HIST every landed increase/decrease (v1, v2), by-token-amounts and reposition is checked from balance deltas against exact big-integer amounts (up on deposit, down on withdrawal, one-sided outside the range incl. price on a bound and the shifted state); success implies the caller's max/min was respected; a third are replayed on forks with token_max = cost / cost-1 and token_min = proceeds / proceeds+1; a quarter of the increases are followed on a fork by removing the same liquidity at the unchanged price; by-token-amounts must yield the largest liquidity that fits; a case is one (instruction, price region relative to the range, spacing, liquidity magnitude, zero-amount sides) tuple",
         quick_runs: 400,
         thorough_secs: 600,
         assumptions: COMMON_ASSUMPTIONS,
